@@ -134,4 +134,21 @@ Section Enc.
     | RBoxed _ => ref_test_sub e j v
                   && match tag_of v with Some z => Z.eqb z (Z.of_nat (2 * j + 1)) | None => false end
     end.
+
+  (* The statements actually emitted for a boxed variant: the subtype test guards the tag load
+     only when the enum has i31 variants (enum_has_int31_variants); otherwise field 0 of the
+     tested value is loaded directly.  None = that load is not defined for the value (it is not
+     an object whose first field is an i32). *)
+  Definition has_int31 (ls : list vrepr) : bool :=
+    existsb (fun r => match r with RInt31 => true | _ => false end) ls.
+  Definition test_variant_emitted (e j : nat) (v : rv) : option bool :=
+    match nth j (L e) RInt31 with
+    | RBoxed _ =>
+        if has_int31 (L e) then Some (test_variant e j v)
+        else match tag_of v with
+             | Some z => Some (Z.eqb z (Z.of_nat (2 * j + 1)))
+             | None => None
+             end
+    | _ => Some (test_variant e j v)
+    end.
 End Enc.
